@@ -12,6 +12,13 @@ Proof. exact total_return_compounds. Qed.
 Theorem C18_benchmark_return : forall closes prev, ~ prev == 0 -> Forall (fun c => ~ c == 0) closes ->
   prod1 (bench_returns prev closes) == lastq prev closes / prev.
 Proof. exact benchmark_telescopes. Qed.
+(* ... also when the benchmark is given with a weight ("id:w", {id: w}): the weighted combination of one member is the member, and only the
+   proportions of the weights matter *)
+Theorem C18_weighted_benchmark_return : forall w closes prev, ~ w == 0 -> ~ prev == 0 -> Forall (fun c => ~ c == 0) closes ->
+  prod1 (bench_series [w] (transpose1 (bench_returns prev closes))) == lastq prev closes / prev.
+Proof. exact weighted_single_benchmark. Qed.
+Theorem C18_benchmark_weights_are_proportions : forall k ws xs, ~ k == 0 -> ~ qsum ws == 0 -> bench_day (map (Qmult k) ws) xs == bench_day ws xs.
+Proof. exact bench_day_scale. Qed.
 (* a run that failed returns no report *)
 Theorem C18_failed_run_no_report : forall mods n f, f <> NoFault -> In (LResult true) (run_mods mods n f) -> False.
 Proof. exact failed_run_has_no_report. Qed.
@@ -22,4 +29,6 @@ Proof. split; vm_compute; reflexivity. Qed.
 Print Assumptions C18_one_record_per_day.
 Print Assumptions C18_total_return.
 Print Assumptions C18_benchmark_return.
+Print Assumptions C18_weighted_benchmark_return.
+Print Assumptions C18_benchmark_weights_are_proportions.
 Print Assumptions C18_failed_run_no_report.
